@@ -160,6 +160,32 @@ def body_reassembly(S, loop, part):
     S.note("client", part["client"])
 
 
+WIRE = NESTED + [["a&bytes=3"], {"k": "x&y=z"}, ["50%", "a+b"], ["#frag", "?q"], {"q": "%41"}, ["a=b", "c;d"], {"json": "json=1"}, [u"\u00e4", "x y"]]
+
+
+def body_wire(S, loop, part):
+    """sender to receiver over the wire: a command with a nested list/dict parameter (strings with separators inside), followed by a
+    sentinel command, must come out of the real receiver as exactly those two commands with the same values and types"""
+    from mpf.core.bcp.bcp_socket_client import encode_command_string
+    v = WIRE[S.choice("nested", len(WIRE))]
+    extra = S.choice("second_param", 3)
+    kwargs = {"k": v}
+    if extra == 1:
+        kwargs["other"] = "x y"
+    elif extra == 2:
+        kwargs["other"] = 5
+    data = (encode_command_string("cmd", **kwargs) + "\n" + encode_command_string("sentinel", n=1) + "\n").encode()
+    cut = S.int("cut", 0, len(data))
+    got = _read_all(loop, part["client"], [data[:cut], data[cut:]])
+    want = [("cmd", kwargs), ("sentinel", {"n": 1})]
+    norm = [(g[0], dict(g[1])) if isinstance(g, (tuple, list)) and len(g) >= 2 and isinstance(g[1], dict) else g for g in got]
+    norm = [(c, {k: x for k, x in kw.items() if k != "rawbytes" or x is not None}) if isinstance(kw, dict) else (c, kw) for c, kw in norm]
+    if norm != want:
+        raise Violation("decodes-back-to-the-same-values-and-types", "read_message", "sent cmd?%r then sentinel; the receiver delivered %r" % (kwargs, norm))
+    S.note("nontrivial", True)
+    S.note("value", repr(v))
+
+
 def scenarios(tier):
     rparts = [dict(kind=k) for k in ("int", "bool", "none", "float", "str", "nested")]
     n = len(_stream())
@@ -170,4 +196,5 @@ def scenarios(tier):
         aparts = [dict(client=c, c1_range=[i, i + 11]) for c in ("asyncio", "mpf") for i in range(0, n + 1, 12)]                         # every pair of cuts
     pb = 70 if tier == "quick" else 300
     return [Scenario("roundtrip", setup, body_roundtrip, rparts, teardown=teardown, part_budget=pb, per_path_timeout=30),
+            Scenario("wire", setup, body_wire, [dict(client="asyncio"), dict(client="mpf")], teardown=teardown, part_budget=pb, per_path_timeout=30),
             Scenario("reassembly", setup, body_reassembly, aparts, teardown=teardown, part_budget=pb, per_path_timeout=30)]
